@@ -6,7 +6,8 @@
    schedulers are C05's model (Sched/Model.v) and its theorems; the gas-limit functions are the go2v translation. *)
 From Coq Require Import List NArith ZArith Bool Lia.
 From Verif Require Import Common.Util Common.GoInt Sched.Model Sched.Proofs Gen.GasLimit GenProofs.GasLimitProofs BaseFee.Model
-     Header.Rules Header.Proofs Validation.Body Validation.Catalogue Validation.ProofsRules Validation.ProofsPacker.
+     Header.Rules Header.Proofs Validation.Body Validation.Catalogue Validation.ProofsRules Validation.ProofsPacker
+     Validation.Cache Validation.ProofsCache.
 Import ListNotations.
 Open Scope N_scope.
 
@@ -60,21 +61,74 @@ Section C01.
     process cfg pv parent st0 b now1 = process cfg pv parent st0 b now2.
   Proof. exact (verdict_independent_of_clock_lemma State exec apply_updates rewards sanity root_of_state root_of_receipts root_of_txs has_tx find_meta cfg pv parent st0 b now1 now2). Qed.
 
-  (* 5. ... nor on the candidate cache, for any cache content satisfying the cache invariant.  PARTIAL: that
-        poaCacher/posCacher.Handle maintain the invariant under the invalidation events is not proved (it is what the
-        warm-vs-cold differential of the harness exercises); the statement below is kept visible *)
-  Theorem verdict_independent_of_cache_partial (c : cache) parent_id cfg fresh parent st0 b now :
-    cache_ok c parent_id fresh ->
-    process cfg (view_with_cache c parent_id fresh) parent st0 b now = process cfg fresh parent st0 b now.
-  Proof. exact (verdict_independent_of_cache_lemma State exec apply_updates rewards sanity root_of_state root_of_receipts root_of_txs has_tx find_meta c parent_id cfg fresh parent st0 b now). Qed.
+  (* 5. ... nor on the validators' candidate cache, over whole histories.  Blocks are abstract identifiers; what a fresh
+        read of the state after a block gives (all_of / funded_of / mbp_of for PoA, hk_of / leaders_of / leaders_pre for
+        PoS) and how the rest of a judgement's inputs depend on the block are arbitrary functions.  A judgement is
+        `process` on the view built from the proposer list; the cachers consume the scheduler's updates and the events of
+        the accepted block's receipts.  The two named hypotheses of each theorem state that the candidate list / leader
+        group changes only through what the cachers watch (Validation/ProofsCache.v):
+          PoA  list_changes_only_by_authority_events, selection_changes_only_by_watched_events
+          PoS  housekeeping_reports_changes, leaders_change_only_by_watched_events.
+        Conclusion: a warm validator that has processed ANY sequence of parent/child pairs (accepted or rejected, any
+        branch order) returns for every block the outcome of a cold validator reading the state. *)
+  Variable Blk : Type.
+  Variable blk_eqb : Blk -> Blk -> bool.
+  Variable child : Blk -> Blk -> Prop.
+  Variable cfg : config.
+  Variable parent_hdr : Blk -> header.
+  Variable st0_of : Blk -> State.
+  Variable block_of : Blk -> block.
+  Variable clock_of : Blk -> N.
+  Variable events_of : list receipt -> events.
+
+  Definition outcome_and_feedback {P} (view_of : P -> Blk -> pview) (ups_of : P -> Blk -> Blk -> list (N * bool))
+             (props : P) (p b : Blk) : outcome State * option (list (N * bool) * events) :=
+    let o := process cfg (view_of props p) (parent_hdr p) (st0_of p) (block_of b) (clock_of b) in
+    (o, match o with Accepted _ _ rcs => Some (ups_of props p b, events_of rcs) | Rejected _ _ => None end).
+
+  Theorem verdict_independent_of_cache_poa
+          all_of funded_of mbp_of hayabusa_of (view_of : list acand -> Blk -> pview) ups_of steps :
+    (forall a b, blk_eqb a b = true <-> a = b) ->
+    let judge := outcome_and_feedback view_of ups_of in
+    (forall p b ups ev, child p b -> snd (judge (poa_fresh Blk all_of funded_of mbp_of p) p b) = Some (ups, ev) ->
+        ev_authority ev = false -> all_of b = apply_updates_list (all_of p) ups) ->
+    (forall p b ups ev, child p b -> snd (judge (poa_fresh Blk all_of funded_of mbp_of p) p b) = Some (ups, ev) ->
+        (hayabusa_of b && ev_staker ev) = false -> ev_params ev = false ->
+        (forall a, In a (ev_parties ev) -> existsb (fun c => ac_endorsor c =? a) (all_of p) = false) ->
+        (forall c, In c (all_of p) -> funded_of b (ac_master c) (ac_endorsor c) = funded_of p (ac_master c) (ac_endorsor c)) /\
+        mbp_of b = mbp_of p) ->
+    Forall (fun pb => child (fst pb) (snd pb)) steps ->
+    poa_run Blk blk_eqb (outcome State) all_of funded_of mbp_of hayabusa_of judge [] steps =
+    map (fun pb => process cfg (view_of (poa_fresh Blk all_of funded_of mbp_of (fst pb)) (fst pb)) (parent_hdr (fst pb))
+                           (st0_of (fst pb)) (block_of (snd pb)) (clock_of (snd pb))) steps.
+  Proof.
+    intros Heq judge HA HF Hs.
+    rewrite (poa_run_is_cold Blk blk_eqb Heq (outcome State) child all_of funded_of mbp_of hayabusa_of judge HA HF steps [] ltac:(intros b e X; discriminate) Hs).
+    reflexivity.
+  Qed.
+
+  Theorem verdict_independent_of_cache_pos
+          hk_of leaders_of leaders_pre (view_of : list cand -> Blk -> pview) ups_of steps :
+    (forall a b, blk_eqb a b = true <-> a = b) ->
+    let judge := outcome_and_feedback view_of ups_of in
+    (forall p, hk_of p = false -> leaders_of p = leaders_pre p) ->
+    (forall p b ev, child p b -> snd (judge (leaders_of p) p b) = Some ([], ev) -> ev_beneficiary_set ev = false ->
+        leaders_pre b = leaders_of p) ->
+    Forall (fun pb => child (fst pb) (snd pb)) steps ->
+    pos_run Blk blk_eqb (outcome State) hk_of leaders_of judge [] steps =
+    map (fun pb => process cfg (view_of (leaders_of (fst pb)) (fst pb)) (parent_hdr (fst pb))
+                           (st0_of (fst pb)) (block_of (snd pb)) (clock_of (snd pb))) steps.
+  Proof.
+    intros Heq judge H1 H2 Hs.
+    rewrite (pos_run_is_cold Blk blk_eqb Heq (outcome State) child hk_of leaders_of leaders_pre judge H1 H2 steps [] ltac:(intros b e X; discriminate) Hs).
+    reflexivity.
+  Qed.
 End C01.
 
-(* not proved: the cache invariant is preserved by Handle (needs a model of how receipts' events/transfers relate to the
-   next state's candidate list) *)
-Definition cache_invariant_maintained_statement : Prop :=
-  forall (read_cands : N -> list cand) (handle : cache -> N -> N -> cache) (c : cache) (parent_id block_id : N),
-    (forall fresh, pv_cands fresh = read_cands parent_id -> cache_ok c parent_id fresh) ->
-    (forall fresh, pv_cands fresh = read_cands block_id -> cache_ok (handle c parent_id block_id) block_id fresh).
+(* 6. the packer's read of the authority list (authority.Candidates) is the validator's (AllCandidates + Pick) *)
+Theorem candidates_reads_agree funded limit l :
+  snd (pick (new_candidates l) funded limit) = cands_walk funded limit l 0.
+Proof. exact (candidates_eq_all_pick funded limit l). Qed.
 
 (* 3. PoA v2: the packer's score is between 1 and the number of candidates, so the total score grows *)
 Theorem poa_v2_score_positive pt T cs me mep t : 0 < T ->
@@ -94,7 +148,7 @@ Definition ex_txs := [ mkTx 9001 true false true false 39 4 32 0 0 false 21000 t
                        mkTx 9003 true false true false 39 4 32 0 0 false 30000 true (Some 9001) ].
 Definition ex_exec (c : bctx) (st : N) (t : txn) : option (N * receipt) :=
   if t_origin_ok t && (21000 <=? t_gas t) && (t_gas t <=? x_gas_limit c) then Some (st + t_id t, mkRc 21000 false 5) else None.
-Definition ex_sr := mkSR 146 (Some 11) (Some (32, 4242)).
+Definition ex_sr := mkSR 146 (Some 11) (Some (32, 4242)) None.
 Definition ex_pack := pack_block N ex_exec (fun _ _ st _ => st) (fun _ st => Some st) (fun st => st)
           (fun rs => N.of_nat (length rs)) (fun ts => N.of_nat (length ts)) (fun _ _ => false) (fun _ => None)
           ex_cfg ex_pv ex_parent ex_po 1003 7 ex_txs true ex_sr.
@@ -125,5 +179,7 @@ Print Assumptions gas_limit_packer_valid.
 Print Assumptions schedule_slot_accepted.
 Print Assumptions packed_block_accepted.
 Print Assumptions verdict_independent_of_clock.
-Print Assumptions verdict_independent_of_cache_partial.
+Print Assumptions verdict_independent_of_cache_poa.
+Print Assumptions verdict_independent_of_cache_pos.
+Print Assumptions candidates_reads_agree.
 Print Assumptions poa_v2_score_positive.
